@@ -12,10 +12,12 @@
 #endif
 
 /* ghost state written by injected ghost statements */
-uint64_t kv_cp_ref0, kv_cp_test0, kv_cp_id0, kv_cp_al0;
+uint64_t kv_cp_ref0, kv_cp_test0, kv_cp_id0, kv_cp_al0, kv_cp_rg0, kv_cp_ta0, kv_cp_tg0, kv_cp_ia0, kv_cp_ig0;
 int kv_p1A, kv_p2A;
 int kv_w1;   /* ghost witness: a column of the reference in which row i has a residue */
 
+/* isalpha in the C locale, as an operator-only expression (calls are not allowed in loop invariants) */
+#define K_ISALPHA(c) (((c) >= 'A' && (c) <= 'Z') || ((c) >= 'a' && (c) <= 'z'))
 #define K_CP_REF(s)  ((s)->ref_total_aligned_pairs + (s)->ref_total_gap_pairs)
 #define K_CP_TEST(s) ((s)->test_total_aligned_pairs + (s)->test_total_gap_pairs)
 #define K_CP_ID(s)   ((s)->identical_aligned + (s)->identical_gaps)
@@ -34,8 +36,7 @@ __CPROVER_requires(__CPROVER_is_fresh(seq1A, len_a) && __CPROVER_is_fresh(seq2A,
 __CPROVER_requires(__CPROVER_is_fresh(seq1B, len_b) && __CPROVER_is_fresh(seq2B, len_b))
 __CPROVER_requires(__CPROVER_is_fresh(stat, sizeof(*stat)))
 __CPROVER_requires(K_CP_SMALL(stat))
-__CPROVER_requires(0 <= kv_w1 && kv_w1 < len_a && isalpha((int)seq1A[kv_w1]))
-__CPROVER_assigns(*stat, kv_cp_ref0, kv_cp_test0, kv_cp_id0, kv_cp_al0, kv_p1A, kv_p2A)
+__CPROVER_assigns(*stat, kv_cp_ref0, kv_cp_test0, kv_cp_id0, kv_cp_al0, kv_cp_rg0, kv_cp_ta0, kv_cp_tg0, kv_cp_ia0, kv_cp_ig0, kv_p1A, kv_p2A)
 __CPROVER_ensures(__CPROVER_return_value == OK)
 /* (kv_cp_*0 are the entry values of the counters, snapshotted by the injected ghost statement at function entry) */
 /* reproduced <= reference relations, for this pair */
@@ -43,7 +44,15 @@ __CPROVER_ensures(K_CP_ID(stat) >= kv_cp_id0 && K_CP_ID(stat) - kv_cp_id0 <= K_C
 /* same number of relations in reference and test (same sequences) */
 __CPROVER_ensures(K_CP_REF(stat) - kv_cp_ref0 == K_CP_TEST(stat) - kv_cp_test0)
 /* a row with a residue contributes at least one reference relation; never more than 2 per column */
-__CPROVER_ensures(K_CP_REF(stat) > kv_cp_ref0 && K_CP_REF(stat) - kv_cp_ref0 <= 2 * (uint64_t)len_a)
+__CPROVER_ensures(K_CP_REF(stat) >= kv_cp_ref0 && K_CP_REF(stat) - kv_cp_ref0 <= 2 * (uint64_t)len_a)
+__CPROVER_ensures(!(0 <= kv_w1 && kv_w1 < len_a && K_ISALPHA(seq1A[kv_w1])) || K_CP_REF(stat) > kv_cp_ref0)
+/* every counter only grows, by at most 2 per column */
+__CPROVER_ensures(stat->ref_total_aligned_pairs >= kv_cp_al0 && stat->ref_total_aligned_pairs - kv_cp_al0 <= 2 * (uint64_t)KV_MAXW && stat->ref_total_gap_pairs >= kv_cp_rg0 && stat->ref_total_gap_pairs - kv_cp_rg0 <= 2 * (uint64_t)KV_MAXW)
+__CPROVER_ensures(stat->test_total_aligned_pairs >= kv_cp_ta0 && stat->test_total_aligned_pairs - kv_cp_ta0 <= 2 * (uint64_t)KV_MAXW && stat->test_total_gap_pairs >= kv_cp_tg0 && stat->test_total_gap_pairs - kv_cp_tg0 <= 2 * (uint64_t)KV_MAXW)
+__CPROVER_ensures(stat->identical_aligned >= kv_cp_ia0 && stat->identical_aligned - kv_cp_ia0 <= 2 * (uint64_t)KV_MAXW && stat->identical_gaps >= kv_cp_ig0 && stat->identical_gaps - kv_cp_ig0 <= 2 * (uint64_t)KV_MAXW)
+/* the snapshots are the entry values */
+__CPROVER_ensures(kv_cp_al0 == __CPROVER_old(stat->ref_total_aligned_pairs) && kv_cp_rg0 == __CPROVER_old(stat->ref_total_gap_pairs) && kv_cp_ta0 == __CPROVER_old(stat->test_total_aligned_pairs) && kv_cp_tg0 == __CPROVER_old(stat->test_total_gap_pairs) && kv_cp_ia0 == __CPROVER_old(stat->identical_aligned) && kv_cp_ig0 == __CPROVER_old(stat->identical_gaps))
+__CPROVER_ensures(kv_cp_ref0 == kv_cp_al0 + kv_cp_rg0 && kv_cp_test0 == kv_cp_ta0 + kv_cp_tg0 && kv_cp_id0 == kv_cp_ia0 + kv_cp_ig0)
 /* aligned relations come in pairs */
 __CPROVER_ensures((stat->ref_total_aligned_pairs - kv_cp_al0) % 2 == 0)
 ;
